@@ -42,7 +42,7 @@ VARIANTS = [{"rel": "at"}, {"rel": "below"}, {"rel": "plus1"}, {"rel": "far"},
             {"rel": "at", "defect": "no49"}, {"rel": "at", "defect": "no56"}, {"rel": "at", "defect": "bad49"},
             {"rel": "at", "defect": "bad56"}, {"rel": "at", "defect": "swap"}, {"rel": "at", "defect": "no34"},
             {"rel": "at", "defect": "g34", "g34": "abc"}, {"rel": "at", "defect": "no35"}]
-SENDS = [{"t": "A"}, {"t": "5"}, {"t": "D"}, {"t": "0"}, {"t": "1"}, {"t": "2"}, {"t": "4", "seq": "nout"}]
+SENDS = [{"t": "A"}, {"t": "5"}, {"t": "D"}, {"t": "0"}, {"t": "1"}, {"t": "2"}, {"t": "4", "seq": "nout", "plain": True}]
 STATES = list(range(19))
 ROLES = [2, 1]
 
@@ -99,6 +99,7 @@ def make_jobs(spec):
                     s = {"t": t}
                     if t == "4":
                         s["seq"] = rng.choice(["nout", "below", "above", "garbled", "missing"])
+                        s["plain"] = rng.random() < 0.5
                     if rng.random() < 0.1:
                         s["pd"] = True
                         s["seq"] = rng.choice(["nout", "below", "above", "garbled", "missing"])
@@ -185,15 +186,13 @@ def oracle(h):
             integ = integrity(msg, before["nin"])
             if integ != "ok":
                 cls = None
-                if integ == "garbled":
-                    cls = "D27-garbled-seqnum"
-                elif integ == "low" and mtype == "4":
+                if integ == "low" and mtype == "4":
                     cls = "D11-seqreset-any"
                 elif integ == "low" and before["st"] == 12:
                     cls = "D28-low-tolerated-while-awaiting"
                 cls = cls or jcls
                 logouts = [w for w in wires if w[0] == "5"]
-                want_logout = integ in ("badcomp", "noseq", "low")
+                want_logout = integ in ("badcomp", "noseq", "garbled", "low")
                 if apps:
                     fails.append((i, "message failing the integrity check (%s) was handed to the application" % integ, cls))
                 elif after["nin"] != before["nin"]:
